@@ -121,6 +121,41 @@ CHECKS.update({
             API_NOTE, API_TECH, "DESIGN.md §4.6, §7 C14"),
 })
 
+CHECKS.update({
+    "C16": ("builder", "TLC checks, for every builder call sequence up to 4 (thorough: 5) calls over two keys / two values "
+            "/ a parent environment, that the code's representation (Option<Vec> snapshot, push/retain, format_env "
+            "de-duplication, set-once match tables, check_no_stdin_data) behaves as the plain command-description "
+            "model allows; the real Exec is driven through all sequences of length <= 2 over a 50-call menu, seeded "
+            "sequences up to 12 calls with clones anywhere and every terminator, and Exec::shell strings; TLC "
+            "evaluates the plain model on each recorded sequence and compares refusals and the started program's "
+            "argv/environ/cwd (or sh's exec arguments).",
+            "Trusted: the three-valued plain model in spec/Builder.tla (identical repetitions and the documented "
+            "capture-without-data panic are don't-cares), the reporting child, interposed execve for sh's argument "
+            "vector, TLC.",
+            "TLA+ refinement spec (Builder.tla: plain model vs code representation) model-checked with TLC; real Exec "
+            "builder driven through call sequences with refusals caught and the child reporting; each recorded "
+            "sequence validated by TLC against BuilderTrace.tla", "DESIGN.md §4.7, §7 C16"),
+    "C19": ("quote", "ShQuote.tla transcribes display_escape/to_cmdline and a POSIX-shell tokeniser; TLC checks "
+            "ShSplit(Render(argv)) = argv exhaustively over an 11-character alphabet with one representative per "
+            "class (21k vectors incl. pipelines); the real Debug/to_cmdline_lossy output for every ASCII "
+            "metacharacter, exhaustive short words, pipelines and long random arguments is parsed back by TLC with "
+            "the same tokeniser (so another correct quoting style is accepted) and by the installed sh.",
+            "Trusted: the shell tokeniser of spec/ShQuote.tla (cross-checked against the installed sh on a subset in "
+            "every run: disagreement = tool error), TLC.",
+            "TLA+ transcription + round-trip property model-checked with TLC; the specification's parser applied by "
+            "TLC to the real rendering code's output (QuoteTrace.tla), plus the real sh", "DESIGN.md §4.9, §7 C19"),
+    "C20": ("quote", "WinArgs.tla transcribes assemble_cmdline/append_quoted and the Microsoft argv parsing rules; TLC "
+            "checks MsParse(Assemble(argv)) = argv exhaustively (strings up to 4, thorough 5, over letter, space, tab, "
+            "newline, quote, backslash, non-ASCII); the functions extracted textually from /repo/src/popen.rs are "
+            "compiled on Linux against a UTF-16 shim, run on exhaustive-small and random vectors (up to 40 units), "
+            "and TLC parses their actual output back; NUL must be rejected.",
+            "Trusted: the Microsoft parsing rules as transcribed in spec/WinArgs.tla, the textual extraction + UTF-16 "
+            "shim (no Windows here), program name restricted to plain file names, TLC.",
+            "TLA+ transcription + round-trip property model-checked with TLC; the specification's parser applied by "
+            "TLC to the output of the repository's Windows code compiled against a shim (QuoteTrace.tla)",
+            "DESIGN.md §4.9, §7 C20"),
+})
+
 ENGINES = [
     {"name": "comm", "path": "/verif/lib/c_comm.py", "serves_properties": ["C01", "C02", "C03", "C04"],
      "kind_free_text": "TLC model checking of spec/Comm.tla + trace validation (spec/CommTrace.tla) of the real "
@@ -137,6 +172,15 @@ ENGINES += [
     {"name": "api", "path": "/verif/lib/c_api.py", "serves_properties": ["C12", "C13", "C14"],
      "kind_free_text": "builder-level scenarios (pipelines, dropped handles) on the real kernel (api_replay, vchild "
                        "stages, wait-for watchdog) validated by TLC against spec/ApiTrace.tla"},
+]
+ENGINES += [
+    {"name": "builder", "path": "/verif/lib/c_builder.py", "serves_properties": ["C16"],
+     "kind_free_text": "TLC refinement check of spec/Builder.tla + real Exec builder call sequences validated against "
+                       "spec/BuilderTrace.tla"},
+    {"name": "quote", "path": "/verif/lib/c_quote.py", "serves_properties": ["C19", "C20"],
+     "kind_free_text": "TLC exhaustive round-trip of spec/ShQuote.tla / spec/WinArgs.tla + the specification's parsers "
+                       "applied to the real renderers' output (spec/QuoteTrace.tla, harness quote_replay, build.rs "
+                       "extraction of the Windows functions)"},
 ]
 NA_REASON = {}
 DEFAULT_NA = ("check not built yet (build phase in progress); will be claimed once its TLA+ spec and conformance "
